@@ -17,7 +17,7 @@ def cases(ctx):
     sts = [{}, {"struct_builder": True}, {"struct_builder": True, "type_mod": "types"}]
     for name, doc in gen.fixture_docs():
         if name.startswith("github") and ctx.tier != "thorough": continue
-        for st in sts[: (3 if ctx.tier == "thorough" else 2)]:
+        for st in (sts if ctx.tier == "thorough" else [sts[0], sts[1 + len(name) % 2]]):      # the third: a configured module (`type_mod`)
             out.append(("fixture:" + name, {"settings": st, "calls": [{"root": doc}]}))
     # one external-crate construct per document, so that a `uses_` flag that is not set cannot be masked by another
     # construct of the same document setting it (every string format of the regenerated table T2 included)
@@ -36,11 +36,11 @@ def cases(ctx):
         out.append(("single:" + nm, {"settings": sts[len(nm) % 2], "calls": [{"root": {"definitions": {"Only": sch}}}]}))
     import corpus
     for cid, cdoc, _ in corpus.documents():
-        if cid.startswith(("hand:", "file:")): out.append(("corpus:" + cid, {"settings": sts[len(cid) % 2], "calls": [{"root": cdoc}]}))
+        if cid.startswith(("hand:", "file:")): out.append(("corpus:" + cid, {"settings": sts[len(cid) % 3], "calls": [{"root": cdoc}]}))
     n = 300 if ctx.tier == "thorough" else 50
     for k in range(n):
         feats = set(gen.FEATURE_SETS["defaults" if k % 3 == 0 else "default"]) | ({"string_formats"} if k % 5 == 0 else set())
-        out.append(("gen:%d" % k, {"settings": sts[k % 2], "calls": [{"root": gen.gen_universe(ctx.rng, 3 + k % 7, feats)}]}))
+        out.append(("gen:%d" % k, {"settings": sts[k % 3], "calls": [{"root": gen.gen_universe(ctx.rng, 3 + k % 7, feats)}]}))
     return out
 
 def model_api(pairs):
